@@ -339,8 +339,13 @@ func (q *queue) Close() {
 
 // GC removes all message which sequence < acknowledged sequence.
 func (q *queue) GC() {
+	// appends store through the cached data/index page under the write lock,
+	// hold the read lock so that no append runs while pages are collected.
+	q.rwMutex.RLock()
+	defer q.rwMutex.RUnlock()
+
 	// get current acknowledged sequence.
-	ackSeq := q.AcknowledgedSeq()
+	ackSeq := q.acknowledgedSeq.Load()
 	if ackSeq < 0 {
 		return
 	}
@@ -352,6 +357,15 @@ func (q *queue) GC() {
 	// calculate index offset of ack sequence
 	indexOffset := int((ackSeq % indexItemsPerPage) * indexItemLength)
 	dataPageID := int64(indexPage.ReadUint64(indexOffset + queueDataPageIndexOffset))
+
+	// never collect the pages which the next append stores through: after an index reset(SetAppendedSeq)
+	// they can lie below the pages of the acknowledged sequence.
+	if dataPageID > q.dataPageIndex {
+		dataPageID = q.dataPageIndex
+	}
+	if indexPageID > q.indexPageIndex {
+		indexPageID = q.indexPageIndex
+	}
 
 	q.dataPageFct.TruncatePages(dataPageID)
 	q.indexPageFct.TruncatePages(indexPageID)
